@@ -1,6 +1,7 @@
 package ysgo
 
 import (
+	"github.com/remieven/ysgo/internal/container"
 	"github.com/remieven/ysgo/internal/tree"
 	"github.com/remieven/ysgo/variable"
 )
@@ -52,9 +53,10 @@ func (w *vWorld) vStep() (*DialogueElement, error, vSpecOutcome) {
 	K0 := vFlatten(dr)
 	node0 := dr.currentNode
 	env := vEnvOf(w.store)
-	env.probeOK = func(i int) bool { return !vBool("probe." + vItoa(i) + ".fails") }
 	visits0 := vCopyVisits(dr.visitedNodes)
 	nH, nP := len(w.handlers), len(w.probes)
+	env.probeOK = func(i int) bool { return !vBool("probe." + vItoa(nP+i) + ".fails") }
+	env.visits = visits0
 
 	var el *DialogueElement
 	var err error
@@ -97,6 +99,35 @@ func (w *vWorld) vStep() (*DialogueElement, error, vSpecOutcome) {
 		vReach("handler-args")
 	}
 	vAssert(len(w.probes)-nP == spec.nProbe, "each executed call statement invokes its function exactly once")
+	nv := 0
+	for _, h := range w.handlers[nH:] {
+		if h.name != "cmdv" {
+			continue
+		}
+		if nv < len(spec.cmdv) {
+			a := h.args
+			vAssert(len(a) == 2 && vKind(a[0]) == 0 && vKind(a[1]) == 0, "the handler receives both arguments as numbers")
+			if len(a) == 2 && vKind(a[0]) == 0 && vKind(a[1]) == 0 {
+				ci, exact := vExactInt(*a[0].Number)
+				wi, _ := vExactInt(spec.cmdv[nv][0])
+				vAssert(exact && ci == wi && vSameFloat(*a[1].Number, spec.cmdv[nv][1]), "the handler receives the values its arguments have when the command runs")
+			}
+			vReach("handler-args-evaluated")
+		}
+		nv++
+	}
+	// what the next step starts from (repeated use): after a fault the runner says itself whether it awaits a choice
+	switch {
+	case spec.fail:
+		w.waiting = nil
+		if dr.isWaitingForChoice() {
+			w.waiting = dr.lastStatement.ShortcutOptionStatement
+		}
+	case !spec.pending && !spec.end && err == nil && spec.yield != nil && spec.yield.ShortcutOptionStatement != nil:
+		w.waiting = spec.yield.ShortcutOptionStatement
+	default:
+		w.waiting = nil
+	}
 
 	// C11: counts change only by +1 per successful jump, for the node left, unless tracking: never
 	for _, t := range w.titles {
@@ -263,4 +294,63 @@ func VHEndAbsorbing() {
 	for _, t := range w.titles {
 		vAssert(w.dr.visitedNodes[t] == visits[t], "visit counts do not change after the end")
 	}
+}
+
+// VHRevisit (C01, C06, C10): a run of STEPS calls on a script that loops: node n0 is [S, line, jump n0] with S a
+// statement of arbitrary kind, every step checked against the reference. The same statements are executed
+// again and again while the host rewrites every variable between two calls, so whatever a step leaves behind
+// (in the runner or anywhere else) that changes how a statement behaves the next time it runs shows up.
+func VHRevisit() {
+	bad := vParam("BAD", 0) != 0
+	w := vNewWorld(0, bad) // params: DEPTH=0 LAST=0 (a runner that has not started), VISCFG
+	dr := w.dr
+	S := w.vStatement("head", vParam("BUDGET", 1), bad)
+	back := &tree.Statement{JumpStatement: &tree.JumpStatement{Expression: vValExpr(variable.NewString("n0"))}}
+	w.nodes[0].Statements = []*tree.Statement{S, w.newLineStmt("L"), back}
+	// the other nodes lead back to n0, too
+	for i := 1; i <= 2; i++ {
+		w.nodes[i].Statements = append(w.nodes[i].Statements, &tree.Statement{JumpStatement: &tree.JumpStatement{Expression: vValExpr(variable.NewString("n0"))}})
+	}
+	vAssume(dr.currentNode == "n0")
+	stack := container.Stack[*statementQueue]{}
+	stack.Push(&statementQueue{statements: w.nodes[0].Statements})
+	dr.statementsToRun = stack
+	steps := vParam("STEPS", 5)
+	for i := 0; i < steps; i++ {
+		t := "step" + vItoa(i)
+		if w.waiting != nil {
+			w.choice = vChoose(t+".choice", len(w.waiting.Options))
+		} else {
+			w.choice = vInt(t + ".choice")
+		}
+		// calls in which the script itself loops without ever yielding (a jump back to n0 reached before any
+		// line) do not return: the reference is run first, it leaves such paths by its fuel assumption
+		pre := vEnvOf(w.store)
+		nP := len(w.probes)
+		pre.probeOK = func(i int) bool { return !vBool("probe." + vItoa(nP+i) + ".fails") }
+		pre.visits = vCopyVisits(dr.visitedNodes)
+		w.vSpecNext(pre, vFlatten(dr), w.waiting, dr.currentNode, w.choice)
+		el, err, spec := w.vStep()
+		if spec.end && !spec.fail {
+			vReach("run-ended")
+			return
+		}
+		if spec.pending && w.pending != nil {
+			w.pending <- nil // the handler reports completion before the next call
+			w.pending = nil
+		}
+		_, _ = el, err
+		if len(spec.jumps) > 0 && spec.node == "n0" {
+			vReach("revisited")
+		}
+		// the host rewrites the variables between two calls (keeping their types)
+		w.store.SetBooleanValue("b0", vBool(t+".b0"))
+		w.store.SetBooleanValue("b1", vBool(t+".b1"))
+		w.store.SetStringValue("s0", vString(t+".s0", 2))
+		w.store.SetNumberValue("x", vFloat(t+".x"))
+		if vParam("JUMPCAT", 0) != 0 {
+			w.store.SetStringValue("c0", vString(t+".c0", 1))
+		}
+	}
+	vReach("run-bounded")
 }
